@@ -86,7 +86,11 @@ class OsProxy:
         return getattr(os, n)
 
 
-_AUDIT = {'on': False, 'events': [], 'installed': False}
+_AUDIT = {'on': False, 'events': [], 'installed': False, 'kill': False, 'target': None, 'rename_sources': [], 'states': []}
+
+
+class Killed(BaseException):
+    """the process is killed at this point (raised from the audit hook: the audited operation does not happen)"""
 
 
 def _audit_hook(event, args):
@@ -97,6 +101,42 @@ def _audit_hook(event, args):
             _AUDIT['events'].append((event, tuple(a if isinstance(a, (str, bytes, int, type(None))) else repr(a) for a in args)))
         except Exception:
             pass
+        tgt = _AUDIT.get('target')
+        if tgt is not None:
+            _AUDIT['on'] = False           # our own reads below are not part of the traced save
+            try:
+                # the on-disk content of the target right now = after everything that happened before this call
+                try:
+                    with open(tgt, 'rb') as f_:
+                        _AUDIT['states'].append((event, f_.read()))
+                except FileNotFoundError:
+                    _AUDIT['states'].append((event, None))
+                if event == 'os.rename' and isinstance(args[1], (str, bytes)) and os.path.abspath(os.fsdecode(args[1])) == os.path.abspath(tgt):
+                    # switch-over: what the source holds ON DISK at this instant is what the target becomes
+                    try:
+                        with open(os.fsdecode(args[0]), 'rb') as f_:
+                            _AUDIT['rename_sources'].append(f_.read())
+                    except OSError:
+                        _AUDIT['rename_sources'].append(None)
+            finally:
+                _AUDIT['on'] = True
+        if _AUDIT['kill'] and event in ('os.rename', 'shutil.move'):
+            raise Killed()
+
+
+def audit_begin(target, kill=False):
+    import sys
+    if not _AUDIT['installed']:
+        sys.addaudithook(_audit_hook)
+        _AUDIT['installed'] = True
+    _AUDIT.update(events=[], states=[], rename_sources=[], target=target, kill=kill, on=True)
+
+
+def audit_end():
+    _AUDIT['on'] = False
+    _AUDIT['kill'] = False
+    _AUDIT['target'] = None
+    return list(_AUDIT['events']), list(_AUDIT['states']), list(_AUDIT['rename_sources'])
 
 
 def in_place_writes(events, target):
@@ -133,6 +173,32 @@ def other_device_dir():
         except OSError:
             continue
     return None
+
+
+def install_fs_tracer(mod, tracer, osproxy=None):
+    """route the file-system calls of `mod` through the tracer, however the module imported them (`import os` or
+    `from os import replace`); returns a function that restores the module"""
+    proxy = osproxy or OsProxy(tracer)
+    saved = []
+    missing = object()
+
+    def put(name, val):
+        saved.append((name, mod.__dict__.get(name, missing)))
+        setattr(mod, name, val)
+    put('open', tracer.open)
+    if 'os' in mod.__dict__:
+        put('os', proxy)
+    for name in ('replace', 'rename', 'remove'):
+        if callable(mod.__dict__.get(name)):
+            put(name, getattr(proxy, name))
+
+    def restore():
+        for name, val in reversed(saved):
+            if val is missing:
+                delattr(mod, name)
+            else:
+                setattr(mod, name, val)
+    return restore
 
 
 def wallet_state(w):
@@ -275,68 +341,59 @@ def run(tier, seed):
                 if os.path.exists('wallet.json'):
                     old_disk = open('wallet.json', 'rb').read()
                 if step % 3 == 0 and w.public_key_annotations:
-                    # an earlier save of a LONGER wallet was killed after its side file was written, before the switch-over:
-                    # whatever it left behind must not leak into this save
-                    class Killed(BaseException):
-                        pass
-
-                    class KillOs(OsProxy):
-                        def replace(self, src, dst):
-                            raise Killed()
-
-                        def rename(self, src, dst):
-                            raise Killed()
+                    # an earlier save of a LONGER wallet was killed after its side file was written, at the switch-over
+                    # (the rename / move does not happen): whatever it left behind must not leak into this save
                     k_long = next(iter(w.public_key_annotations))
                     keep_ann = w.public_key_annotations[k_long]
                     w.public_key_annotations[k_long] = 'long annotation ' * 60
-                    sv = (W.__dict__.get('open'), W.os)
-                    W.os = KillOs(Tracer('wallet.json'))
-                    import shutil as _sh
-                    sv_move = _sh.move
+                    audit_begin('wallet.json', kill=True)
                     try:
-                        def _killed_move(*a, **k):
-                            raise Killed()
-                        _sh.move = _killed_move
                         try:
                             W.save_wallet(w)
                         except Killed:
                             ck.count('save/killed-before-switch-over')
                     finally:
-                        _sh.move = sv_move
-                        W.os = sv[1]
+                        audit_end()
                         w.public_key_annotations[k_long] = keep_ann
                 tr = Tracer('wallet.json')
-                saved = (W.__dict__.get('open'), W.os)
-                W.open = tr.open
-                W.os = OsProxy(tr)
+                _restore_fs = install_fs_tracer(W, tr)
                 old_tmp = tempfile.tempdir
                 use_xdev = bool(xdev) and step % 2 == 0
                 if use_xdev:
                     tempfile.tempdir = xdev          # system temp directory on another file system (e.g. tmpfs /tmp)
-                _AUDIT['events'] = []
-                _AUDIT['on'] = True
+                audit_begin('wallet.json')
                 try:
                     W.save_wallet(w)
                 finally:
-                    _AUDIT['on'] = False
+                    a_events, a_states, a_sources = audit_end()
                     tempfile.tempdir = old_tmp
-                    if saved[0] is None:
-                        del W.open
-                    else:
-                        W.open = saved[0]
-                    W.os = saved[1]
+                    _restore_fs()
                 new_disk = open('wallet.json', 'rb').read()
+                tr.boundary(('end',))
                 buf = io.StringIO()
                 w.dump(buf)
                 expect_new = buf.getvalue().encode()
                 rp = {'trial': trial, 'step': step, 'ops': [repr(s[0]) for s in tr.states]}
-                inplace = in_place_writes([e for e in _AUDIT['events']], 'wallet.json') if old_disk is not None else []
+                inplace = in_place_writes(a_events, 'wallet.json') if old_disk is not None else []
                 if inplace:
                     ck.violation('wallet-file-written-in-place', 'a save%s opens wallet.json itself for writing (%s): until that '
                                  'write completes the file is neither the previous nor the new wallet'
                                  % (' with the system temp directory on another file system' if use_xdev else '', ', '.join(inplace[:3])),
-                                 dict(rp, temp_dir_on_other_filesystem=use_xdev, calls=[repr(e)[:120] for e in _AUDIT['events']][:20]))
-                ck.count('save/fs-calls-audited', len(_AUDIT['events']))
+                                 dict(rp, temp_dir_on_other_filesystem=use_xdev, calls=[repr(e)[:120] for e in a_events][:20]))
+                ck.count('save/fs-calls-audited', len(a_events))
+                # whatever API the save used: the target's on-disk content at every audited file-system call, and what the
+                # source of the switch-over held on disk at that instant
+                for ev_, content in a_states:
+                    if content != old_disk and content != new_disk:
+                        ck.violation('wallet-file-torn', 'at a file-system call (%s) during a save the wallet file is neither the '
+                                     'complete previous nor the complete new wallet' % ev_, rp)
+                        break
+                for src_content in a_sources:
+                    if src_content != new_disk:
+                        ck.violation('wallet-file-torn', 'at the switch-over of a save the side file holds %s bytes on disk, the '
+                                     'complete new wallet has %d: the wallet file is incomplete from the rename until the side file '
+                                     'is flushed' % (None if src_content is None else len(src_content), len(new_disk)), rp)
+                        break
                 if new_disk != expect_new:
                     ck.violation('saved-file-not-dump', 'wallet.json after save differs from the wallet dump', rp)
                 for i, (op, content) in enumerate(tr.states):
@@ -349,8 +406,6 @@ def run(tier, seed):
                 for _, c in tr.states:
                     if not seq or seq[-1] != c:
                         seq.append(c)
-                if tr.states and tr.states[-1][1] != new_disk:
-                    ck.violation('save-incomplete', 'the last step of a save does not leave the new wallet in place', rp)
                 reqs.append(('fs_prefixes', [], [[0] if old_disk is None else [1, old_disk], [new_disk[:7], new_disk[7:]]]))
                 wants.append(('fs', [c for c in ([old_disk] if old_disk != new_disk else []) + [new_disk]], rp))
                 try:
